@@ -65,7 +65,7 @@ func c02(c *Ctx) {
 		"layout of every shipped struct is compared field by field with its schema line (order, TL→Go type, flag bit, position of the flags word — the " +
 		"field-level half of C13), the hard-coded builtin ids are the CRC-32 of their TL lines, the string header constants and sizes are tabulated by " +
 		"evaluating the SSA of the writers and the reader for every length 0..600 and around 2^16 / 2^24, and the 2^24 refusal is checked on the boundary."
-	r.NotDecided = []string{"that the walk emits fields in declaration order with one bit per present group for all values (structural half: C01 R01.F)",
+	r.NotDecided = []string{"that the walk emits fields in declaration order for all values (the structural half is R02.G / C01 R01.F)",
 		"decoding of reference-built bytes as values"}
 	r.Rule("R02.L", "every shipped struct is the image of its schema line: order, types, flag bit, encoded_in_bitflags ⇔ true, FlagIndex = position of flags:#, mandatory fields before the flags word are untagged", 1100)
 	r.Rule("R02.B", "builtin ids equal the CRC-32 of their TL lines", 7)
@@ -83,6 +83,8 @@ func c02(c *Ctx) {
 		r.Undecide("R02.L", "population", "", err.Error())
 		return
 	}
+	r.Rule("R02.G", "a present conditional group contains every one of its fields: the decoder reads a tagged field iff its bit is set, the encoder sets the bit and emits the field under that bit and nothing else (a flags.N?Bool is a bit plus a Bool word, only flags.N?true is the bit alone)", 3)
+	c01Presence(c, pp, tr, "R02.G")
 	api, mt, err := c.Schemas()
 	if err != nil {
 		r.Undecide("R02.L", "schema", "", err.Error())
